@@ -294,7 +294,7 @@ func valueDigestPoint(raw alpha.PointRaw) string {
 	}
 	x, y := pv.Affine()
 	e := alpha.Encode(x, y)
-	return fmt.Sprintf("P:%x", e[:])
+	return fmt.Sprintf("P:%x/%v", e[:], limbsOK(raw.X) && limbsOK(raw.Y) && limbsOK(raw.Z) && limbsOK(raw.T))
 }
 
 func valueDigestElem(l alpha.Limbs) string {
@@ -1318,6 +1318,7 @@ func (r *Run) logStepPost(op *OpDesc, c *Call, out *Outcome, pre, post *Snap) {
 		}
 	})
 	line := fmt.Sprintf("%d %s -> %s", r.StepNo, c.String(), dig)
+	r.ev("C20")
 	r.hv.Write([]byte(line))
 	r.hv.Write([]byte{'\n'})
 	if r.Transcript != nil {
@@ -1362,3 +1363,7 @@ func sortedKeys(m map[string]int64) []string {
 	sort.Strings(ks)
 	return ks
 }
+
+// ValueDigestPoint is the representation-independent description of a point
+// (exported for the task scheduler's sequential-equivalence oracle).
+func ValueDigestPoint(raw alpha.PointRaw) string { return valueDigestPoint(raw) }
